@@ -81,6 +81,10 @@ _ORIG_RUN = asyncio.events.Handle._run
 _CURRENT = None
 
 
+def _noop():
+    return None
+
+
 def _patched_run(handle):
     run = _CURRENT
     if run is None or handle._loop is not run.loop:
@@ -121,6 +125,7 @@ class Run:
         self.stuck = False
         self.handovers = 0
         self.giveups = 0
+        self.cycle_failed = set()
         self.aborted = False
         self.last_keys: dict = {}
 
@@ -153,6 +158,8 @@ class Run:
                 i += 1
             else:
                 k = op[1]
+                cyc = self.closes_cycle(w, k)
+                at = len(self.lines)
                 self.ev(f"acquire {k}")
                 self.waiting[w] = k
                 self.arrival[w] = next(self.stamp)
@@ -163,11 +170,33 @@ class Run:
                             i = await self.block(w, ops, i + 1)
                         finally:
                             self.leave(w, k)
+                except RecursionError:
+                    # the wait-for graph has a cycle through this edge: effective_priority() /
+                    # propagate_priority() recurse without end and acquire() raises from inside its try
+                    # block.  That is what the library does on a lock-order cycle of PriorityTasks; the
+                    # model's event for it is `acquireFails` (no net change).
+                    if cyc and self.lines[at] == f"ev acquire {k}" and "obs" not in self.lines[at:]:
+                        self.lines[at] = f"ev acquirefails {k}"
+                        self.cycle_failed.add(w)
+                        self.tags.add("acquire-raises-on-lock-order-cycle")
+                    raise
                 finally:
                     if self.waiting.pop(w, None) is not None:
                         self.giveups += 1          # left the queue without getting the lock
                     self.handover_check(k)
         return i
+
+    def closes_cycle(self, w, k):
+        """would worker w, by waiting for lock k, close a cycle of the harness's wait-for graph?"""
+        h, hops = self.holder.get(k), 0
+        while h is not None and hops < 20:
+            if h == w:
+                return True
+            kk = self.waiting.get(h)
+            if kk is None:
+                return False
+            h, hops = self.holder.get(kk), hops + 1
+        return False
 
     def lock_view(self, k):
         lock = self.locks[k]
@@ -380,6 +409,10 @@ class Run:
                 self.fail("locked-mismatch", f"lock {k}: locked()={lock.locked()} but {c} "
                                              f"worker(s) inside")
             ents = self.entries(k)
+            for _, _, _, v in ents:
+                if v is None or self.waiting.get(v) != k:
+                    self.fail("dead-entry", f"lock {k} has a queue entry for worker {v}, which is not "
+                                            f"suspended in acquire({k}) (waiting: {dict(self.waiting)})")
             if not lock.locked() and ents:
                 inflight = any(f.done() for _, _, f, _ in ents) or any(
                     rm.get(w, ("", None))[0] == "x" for _, _, _, w in ents)
@@ -546,6 +579,12 @@ class Run:
             except RuntimeError:
                 self.tags.add("throw-refused")
             self.ev(f"throw {i} {code}")
+        elif kind == "callsoon":
+            # a pending callback that is not a bound method of a task (call_soon(function), what
+            # gather / timers / user code put into the ready queue); it does nothing when it runs
+            self.loop.call_soon(_noop)
+            self.tags.add("non-task-callback-in-ready-queue")
+            return
         elif kind == "reinsert":
             # scheduling.task_reinsert(task, pos): the task's ready handle is moved to position `pos`;
             # on the priority loop it, and the entries popped before it, become positional (class 0)
@@ -675,6 +714,8 @@ class Run:
                       f"{unfinished} never finished (waiting: {dict(self.waiting)})")
         for w, t in enumerate(self.tasks):
             oc = self.outcome.get(w)
+            if oc == "RecursionError" and w in self.cycle_failed:
+                continue                    # acquire() on a lock-order cycle: the documented way out
             if t.done() and w not in self.faulted and oc not in ("ok", None):
                 self.fail("spurious-exception", f"worker {w} was never cancelled or interrupted "
                           f"but ended with {oc}")
@@ -949,8 +990,15 @@ def gen_woken_holder_case(rng):
     W = mk(pw, [["wait", 1], ["acq", l1], ["rel"]])
     M = mk(pm, [["wait", 2]] + [["sleep"]] * rng.randint(0, 2))
     ws = [R, H, W, M]
-    rng.shuffle(ws)
     env = [[4, "set", e] for e in rng.sample([0, 1, 2], 3)]
+    if rng.random() < 0.5:
+        # everybody more urgent than 0, and a non-task callback (priority 0) pending in the ready queue
+        # while the inheritance happens: the loop must still find and re-key the holder's entry
+        for wk, pri in zip(ws, [rng.choice(["-20", "-15"]), rng.choice(["-1", "-3/2"]),
+                                rng.choice(["-8", "HIGH", "-6"]), rng.choice(["-3", "-4", "-2"])]):
+            wk["pri"] = pri
+        env = [[4, "callsoon"]] * rng.randint(1, 2) + env
+    rng.shuffle(ws)
     return {"loop": "prio", "nlocks": 3, "nevents": 3, "workers": ws, "env": env}
 
 
@@ -996,6 +1044,87 @@ def gen_positional_case(rng):
     n0 = len(ws)
     env = [[n0, "set", 0], [n0 + 1, "set", 1], [n0 + 1, "reinsert", xi, rng.randint(1, 2)]]
     return {"loop": "prio", "nlocks": 2, "nevents": 2, "workers": ws, "env": env}
+
+
+def gen_cycle_case(rng):
+    """Directed shape for C13: two PriorityTasks take two locks in opposite order.  The second acquire
+    closes a wait-for cycle: effective_priority()/propagate_priority() recurse around it and acquire()
+    raises RecursionError from inside its try block (so the queue entry is removed again); the task backs
+    off (`async with` releases what it holds), the other one finishes, and later acquirers of both locks
+    must still get them."""
+    loop = rng.choice(["stock", "prio"])
+    mk = lambda pri, script: {"kind": "P", "pri": pri, "script": script}  # noqa: E731
+    pad = lambda n: [["sleep"]] * n  # noqa: E731
+    W1 = mk(rng.choice(PRI_POOL), [["acq", 0], ["wait", 0], ["acq", 1]] + pad(rng.randint(0, 1)) + [["rel"], ["rel"]])
+    W2 = mk(rng.choice(PRI_POOL), [["acq", 1], ["wait", 1], ["acq", 0]] + pad(rng.randint(0, 1)) + [["rel"], ["rel"]])
+    ws = [W1, W2]
+    for _ in range(rng.randint(1, 2)):
+        k = rng.randrange(2)
+        ws.append({"kind": rng.choice("PPY"), "pri": rng.choice(PRI_POOL),
+                   "script": [["wait", 2]] + pad(rng.randint(0, 2)) + [["acq", k]] + pad(rng.randint(0, 1)) + [["rel"]]})
+    rng.shuffle(ws)
+    first, second = rng.sample([0, 1], 2)
+    n0 = len(ws)
+    env = [[n0, "set", first], [n0 + 1, "set", second], [n0 + rng.randint(1, 4), "set", 2]]
+    if rng.random() < 0.3:
+        env.append([n0 + rng.randint(1, 6), "cancel", rng.randrange(len(ws))])
+    env.sort(key=lambda a: a[0])
+    return {"loop": loop, "nlocks": 2, "nevents": 3, "workers": ws, "env": env}
+
+
+def gen_between_owners_case(rng):
+    """Directed shape for C12 (stock loop): H queues on lock 0 while it is between owners (released, the
+    woken waiter W1 has not run yet); W1 then owns lock 0 and queues on lock 1, inheriting H's priority in
+    its arrival key; H gives up; a waiter X with a priority between W1's own and H's arrives on lock 1.
+    W1's key must have fallen back when H left, so that X gets lock 1 first."""
+    mk = lambda kind, pri, script: {"kind": kind, "pri": pri, "script": script}  # noqa: E731
+    pad = lambda n: [["sleep"]] * n  # noqa: E731
+    m1 = rng.randint(1, 3)
+    M1 = mk(rng.choice("PT"), rng.choice(PRI_POOL), [["acq", 0]] + pad(m1) + [["rel"]])
+    M2 = mk(rng.choice("PT"), rng.choice(PRI_POOL), [["acq", 1]] + pad(rng.randint(12, 16)) + [["rel"]])
+    W1 = mk("P", rng.choice(["5", "3", "LOW"]), [["acq", 0], ["acq", 1], ["rel"], ["rel"]])
+    H = mk("P", rng.choice(["HIGH", "-8", "-5"]), pad(m1 + rng.randint(-1, 1)) + [["acq", 0], ["rel"]])
+    X = mk("P", rng.choice(["0", "-1", "1", "NORMAL"]), pad(rng.randint(7, 9)) + [["acq", 1], ["rel"]])
+    ws = [M1, M2, W1, H, X]
+    env = [[rng.randint(5 * (m1 + 2), 5 * (m1 + 2) + 8), "cancel", 3]]
+    return {"loop": "stock", "nlocks": 2, "nevents": 0, "workers": ws, "env": env}
+
+
+def gen_chain_giveup_case(rng):
+    """Directed shape for C12 (stock loop): chain H -> L0 (A) -> L1 (B) -> L2 (C0) with a sibling X on the
+    middle lock whose priority lies between A's own and H's; H gives up after its priority has travelled
+    up the chain; then Y, between B's fallen-back priority (X's) and H's, arrives on the top lock.  Every
+    key along the chain must have fallen back, so Y gets L2 before B."""
+    mk = lambda pri, script: {"kind": "P", "pri": pri, "script": script}  # noqa: E731
+    pad = lambda n: [["sleep"]] * n  # noqa: E731
+    C0 = mk(rng.choice(PRI_POOL), [["acq", 2]] + pad(rng.randint(16, 19)) + [["rel"]])
+    B = mk(rng.choice(["5", "LOW", "3"]), pad(1) + [["acq", 1], ["acq", 2], ["rel"], ["rel"]])
+    A = mk(rng.choice(["5", "3", "2"]), pad(2) + [["acq", 0], ["acq", 1], ["rel"], ["rel"]])
+    X = mk(rng.choice(["-2", "-1", "-3/2"]), pad(3) + [["acq", 1], ["rel"]])
+    H = mk(rng.choice(["HIGH", "-9", "-8"]), pad(rng.randint(4, 5)) + [["acq", 0], ["rel"]])
+    Y = mk(rng.choice(["-5", "-4", "-6"]), pad(rng.randint(10, 12)) + [["acq", 2], ["rel"]])
+    ws = [C0, B, A, X, H, Y]
+    env = [[rng.randint(21, 30), "cancel", 4]]
+    return {"loop": "stock", "nlocks": 3, "nevents": 0, "workers": ws, "env": env}
+
+
+def gen_two_episodes_case(rng):
+    """Directed shape for C12 (stock loop): the same task T goes through two waits.  Each time it owns
+    lock 0 and is queued on lock 1 when an urgent task starts to wait for lock 0, and it inherits the same
+    value both times.  In the second episode a competitor V, between T's own priority and the inherited
+    one, is queued on lock 1 as well: T must be re-keyed again and get lock 1 before V."""
+    mk = lambda kind, pri, script: {"kind": kind, "pri": pri, "script": script}  # noqa: E731
+    pad = lambda n: [["sleep"]] * n  # noqa: E731
+    urgent = rng.choice(["HIGH", "-8", "-5"])
+    G1 = mk(rng.choice("PT"), rng.choice(PRI_POOL), [["acq", 1]] + pad(rng.randint(3, 4)) + [["rel"]])
+    T = mk("P", rng.choice(["5", "3", "LOW"]),
+           [["acq", 0], ["acq", 1], ["rel"], ["rel"]] + pad(rng.randint(4, 5)) + [["acq", 0], ["acq", 1], ["rel"], ["rel"]])
+    U1 = mk("P", urgent, pad(1) + [["acq", 0], ["rel"]])
+    G2 = mk(rng.choice("PT"), rng.choice(PRI_POOL), pad(rng.randint(7, 8)) + [["acq", 1]] + pad(rng.randint(8, 10)) + [["rel"]])
+    V = mk("P", rng.choice(["0", "1", "-1", "NORMAL"]), pad(rng.randint(12, 13)) + [["acq", 1], ["rel"]])
+    U2 = mk("P", urgent, pad(rng.randint(14, 15)) + [["acq", 0], ["rel"]])
+    ws = [G1, T, U1, G2, V, U2]
+    return {"loop": "stock", "nlocks": 2, "nevents": 0, "workers": ws, "env": []}
 
 
 def gen_chain_case(rng):
@@ -1065,12 +1194,12 @@ def shrink(case, kind, sched_oracle):
     while changed and len(case["workers"]) > 1:
         changed = False
         for i in range(len(case["workers"]) - 1, -1, -1):
-            if any(a[1] != "set" and a[2] == i for a in case["env"]):
+            if any(a[1] not in ("set", "callsoon") and a[2] == i for a in case["env"]):
                 continue
             c = copy.deepcopy(case)
             del c["workers"][i]
             for a in c["env"]:
-                if a[1] != "set" and a[2] > i:
+                if a[1] not in ("set", "callsoon") and a[2] > i:
                     a[2] -= 1
             if bad(c):
                 case, changed = c, True
@@ -1134,6 +1263,18 @@ def explore(ctx, cases, kinds, theorem_of, sched_oracle=False, label="", max_rep
                 oi += 1
             elif ln.startswith("ev ") or ln.startswith("init "):
                 want = "ok"
+            if want is not None and m != want and ln == "obs" and ":ERR:" in want:
+                # effective_priority() raised (RecursionError on a transient wait-for cycle, e.g. through
+                # a cancelled waiter that has not run yet): the model's bounded recursion has a value
+                # there, the real one has none - compare everything else
+                wf, mf = want.split("|"), m.split("|")
+                if len(wf) == len(mf):
+                    for j2, (a, b) in enumerate(zip(wf, mf)):
+                        pa, pb = a.split(":"), b.split(":")
+                        if a.startswith("T") and len(pa) == len(pb) == 7 and pa[5] == "ERR":
+                            pb[5] = "ERR"
+                            mf[j2] = ":".join(pb)
+                    m = "|".join(mf)
             if want is not None and m != want:
                 if reported < max_report:
                     ctx.disagreement(
